@@ -166,7 +166,51 @@ def assignpos_case(case):
     return dict(key=case[1:], nontrivial=True, failures=fails, sample=dict(field=field, value=repr(value), valid=valid, vlevel=vlevel, first_error_at=stage))
 
 
+def aftergraphop_case(case):
+    """lines made by a graph operation (the merged segment of a linear path, the copy made by multiply) obey the validation level of their
+    Gfa like any other line: an invalid value assigned to them is reported at level 3 at once and at level 2 on writing"""
+    _, op, seqs, vlevel = case
+    fails = []
+    lines = ["S\ta\t%s" % seqs[0], "S\tb\t%s" % seqs[1], "S\tc\t%s" % seqs[2], "L\ta\t+\tb\t+\t%s" % ("2M" if "*" not in seqs else "*"), "L\tb\t+\tc\t+\t%s" % ("2M" if "*" not in seqs else "*")]
+    def fail(sig, what):
+        fails.append(dict(signature="C18:after-%s:%s" % (op, sig), what=what, case=dict(lines=lines, op=op, vlevel=vlevel)))
+    try:
+        g = gfapy.Gfa(lines, vlevel=vlevel)
+        if op == "merge":
+            g.merge_linear_paths()
+            new = [s_ for s_ in g.segments if "_" in s_.name]
+        else:
+            g.multiply("b", 2)
+            new = [s_ for s_ in g.segments if "*" in s_.name]
+        if not new:
+            fail("no-new-line", str(g)); return dict(key=case, nontrivial=True, failures=fails)
+        l = new[0]
+        if l.vlevel != vlevel:
+            fail("line-at-another-level", "level %d graph, the new line %s is at level %s" % (vlevel, l.name, l.vlevel))
+        try:
+            l.set("sequence", "AC GT")
+            at_set = False
+        except gfapy.Error:
+            at_set = True
+        if vlevel >= 3 and not at_set:
+            fail("invalid-assignment-not-reported-at-set", str(l.name))
+        if vlevel == 2 and not at_set:
+            try:
+                t = str(l)
+                if "INVALID" not in t:
+                    fail("invalid-assignment-written-at-level2", t)
+            except gfapy.Error:
+                pass
+    except gfapy.Error as e:
+        fail("raises-%s" % type(e).__name__, harness.short(e, 160))
+    except Exception as e:
+        fail("foreign-%s" % type(e).__name__, harness.short(e, 160))
+    return dict(key=case, nontrivial=True, failures=fails, sample=dict(op=op, vlevel=vlevel))
+
+
 def check(case):
+    if case[0] == "aftergraphop":
+        return aftergraphop_case(case)
     if case[0] == "assignpos":
         return assignpos_case(case)
     return doc_case(case) if case[0] == "doc" else assign_case(case)
@@ -195,6 +239,10 @@ def cases(tier, seed):
                         out.append(("assign", version, dt, v, False, vlevel, declared))
                 for v in good:
                     out.append(("assign", version, dt, v, True, vlevel, False, True))
+    for op in ("merge", "multiply"):
+        for seqs in (("*", "*", "*"), ("ACGTAA", "AACCGG", "GGTTAA")):
+            for vlevel in (0, 1, 2, 3):
+                out.append(("aftergraphop", op, seqs, vlevel))
     for i, (_t, _v, _f, vals) in enumerate(_posvalues()):
         for j in range(len(vals)):
             for vlevel in (0, 1, 2, 3):
